@@ -16,6 +16,9 @@ VERIF = os.path.dirname(os.path.abspath(__file__))
 REPO = os.environ.get("VERIF_REPO", "/repo")
 
 
+TOLERANT = False
+
+
 class ExtractError(Exception):
     """lost anchor / unsupported construct: the run is UNDECIDED (exit 2), never an alarm"""
 
@@ -711,6 +714,18 @@ class Unit:
 
     def extracted_fn(self, src, fn, within=None, nth=0, contract="", sig_rw=None, body_rw=None, loops=None,
                      rename=None, prefix="", proof_prologue="", keep_sig=True, hints=None):
+        if TOLERANT:
+            # scan-only rebuild after an extraction error: keep going so that the syntactic obligations registered by the
+            # unit can still be evaluated (the unit itself stays undecided)
+            try:
+                return self._extracted_fn(src, fn, within, nth, contract, sig_rw, body_rw, loops, rename, prefix, proof_prologue, keep_sig, hints)
+            except ExtractError as e:
+                self.extract_errors = getattr(self, "extract_errors", []) + [str(e)]
+                return None
+        return self._extracted_fn(src, fn, within, nth, contract, sig_rw, body_rw, loops, rename, prefix, proof_prologue, keep_sig, hints)
+
+    def _extracted_fn(self, src, fn, within=None, nth=0, contract="", sig_rw=None, body_rw=None, loops=None,
+                      rename=None, prefix="", proof_prologue="", keep_sig=True, hints=None):
         s, ob, cb = src.fn_span(fn, within, nth)
         item = src.src[s:cb + 1]
         sig = src.src[s:ob].strip()
